@@ -25,7 +25,7 @@ ASSUMPTIONS = [
     "PYTHONHASHSEED is fixed (0) in both the sequence process and the fresh baseline process",
     "for compiled ACLs only result equality under reuse is required (matching overwrites their scratch 'match' field)",
 ]
-FLOORS = {"quick": {"jobs_in_sequences": 60, "fresh_baselines": 30, "snapshots_compared": 180, "repeated_jobs": 6, "same_vendor_other_hw": 6, "acl_jobs": 6, "rule_mutating_logic_jobs": 4, "nested_dropped_row_jobs": 8, "reference_tracker_jobs": 6, "shared_compiled_acl_jobs": 36, "overlay_provider_jobs": 30, "reference_tracker_jobs_with_a_silent_generator": 6, "collecting_logic_pair_jobs": 12, "collecting_logic_jobs_refused": 6, "jobs_with_a_software_release": 40},
+FLOORS = {"quick": {"jobs_in_sequences": 60, "fresh_baselines": 30, "snapshots_compared": 180, "repeated_jobs": 6, "same_vendor_other_hw": 6, "acl_jobs": 6, "rule_mutating_logic_jobs": 4, "nested_dropped_row_jobs": 8, "reference_tracker_jobs": 6, "shared_compiled_acl_jobs": 36, "overlay_provider_jobs": 30, "reference_tracker_jobs_with_a_silent_generator": 6, "collecting_logic_pair_jobs": 12, "collecting_logic_jobs_refused": 6, "jobs_with_a_software_release": 40, "jobs_with_one_deep_acl_text_for_several_vendors": 20, "jobs_with_rows_matched_by_two_ordering_rules": 12},
           "thorough": {"jobs_in_sequences": 2500, "fresh_baselines": 400, "snapshots_compared": 7500, "repeated_jobs": 200, "same_vendor_other_hw": 200, "acl_jobs": 200}}
 NPROC = {"quick": 8, "thorough": 16}
 FAMILIES = {"huawei": ["Huawei", "Huawei CE6870", "Huawei NE40E-X8", "Huawei Quidway S5300"], "huawei ce": ["Huawei CE0000", "Huawei NE40E-X8", "Huawei Quidway S5700"],
@@ -129,6 +129,24 @@ SOFT_PAIRS = [
 ]
 
 
+# one generator ACL nested three levels deep, used for devices of three vendors (a multi-vendor generator): every vendor compiles the same text
+DEEP_ACL = "router bgp *\n    vrf *\n        router-id *\n        neighbor *\n            description ~\n    bgp router-id *\nhostname *\n"
+DEEP_ACL_JOBS = [
+    {"kind": "hand", "model": m, "old": "router bgp 65000\n vrf A\n  router-id 1.1.1.1\n  neighbor 10.0.0.1\n   description a\nhostname a\nntp server 1.1.1.1\n",
+     "new": "router bgp 65000\n vrf A\n  router-id 2.2.2.2\n  neighbor 10.0.0.1\n   description b\nhostname b\n", "acl": DEEP_ACL}
+    for m in ("Cisco Catalyst 2960", "Cisco Nexus 9316", "Arista DCS-7050", "Cisco ASR 9010")
+]
+# rows that two ordering rules of one level match (a specific interface kind and `interface *`): the first of them has a child block
+TWO_ORDER_RULES = [
+    {"kind": "hand", "model": "Huawei CE6870", "old": "interface Tunnel0/0/1\n description a\ninterface Vlanif10\n description a\ninterface LoopBack0\n description a\n",
+     "new": "interface Tunnel0/0/1\n description b\n tunnel-protocol gre\ninterface Vlanif10\n description b\n mtu 1500\ninterface LoopBack0\n description b\ninterface Eth-Trunk1.100\n description s\n"},
+    {"kind": "hand", "model": "Huawei NE40E-X8", "old": "interface Tunnel0/0/1\n description a\n", "new": "interface Tunnel0/0/1\n description b\ninterface GE1/0/1.100\n description s\n vlan-type dot1q 100\n"},
+    {"kind": "hand", "model": "Cisco Nexus 9316", "old": "interface Vlan10\n description a\ninterface port-channel1\n description a\n",
+     "new": "interface Vlan10\n description b\n mtu 9000\ninterface port-channel1\n description b\ninterface Ethernet1/1.100\n description s\ninterface loopback0\n description l\n"},
+    {"kind": "hand", "model": "Arista DCS-7050", "old": "interface Vlan10\n description a\n", "new": "interface Vlan10\n description b\ninterface Port-Channel1\n description p\ninterface Loopback0\n description l\n"},
+]
+
+
 SYNTH_RB = """
 x * %logic=vfmut.leaky
 y *
@@ -226,6 +244,10 @@ def plan(tier, seed):
         for ps in rng.sample(SOFT_PAIRS, 4):
             at = rng.randrange(len(seq) + 1)
             seq[at:at] = [dict(ps[0]), dict(ps[1])]
+        for dj in rng.sample(DEEP_ACL_JOBS, 3):
+            seq.insert(rng.randrange(len(seq) + 1), dict(dj))
+        for tj in rng.sample(TWO_ORDER_RULES, 2):
+            seq.insert(rng.randrange(len(seq) + 1), dict(tj))
         pu = rng.choice(ARUBA_PAIRS)
         at = rng.randrange(len(seq) + 1)
         seq[at:at] = [dict(pu[0]), dict(pu[1])]
@@ -291,8 +313,11 @@ def compute(hw, old, new, acl_text, synth=False, refs=None):
     from annet.vendors import registry_connector
     v = registry_connector.get().match(hw)
     fmt = v.make_formatter()
-    acl = compile_acl_text(acl_text, v.NAME) if acl_text else None
     out = {}
+    try:
+        acl = compile_acl_text(acl_text, v.NAME) if acl_text else None
+    except Exception as e:
+        return {"error": "acl:" + type(e).__name__, "error_direct": "acl:" + type(e).__name__}
     ref_track = None
     if refs:
         from annet.reference import RefTracker
@@ -440,6 +465,10 @@ def run_seq(spec, acc):
                 acc.count("reference_tracker_jobs_with_a_silent_generator")
         if job.get("soft"):
             acc.count("jobs_with_a_software_release")
+        if job.get("acl") == DEEP_ACL:
+            acc.count("jobs_with_one_deep_acl_text_for_several_vendors")
+        if any(job.get("old") == t_["old"] and job["model"] == t_["model"] for t_ in TWO_ORDER_RULES):
+            acc.count("jobs_with_rows_matched_by_two_ordering_rules")
         if job["model"].startswith("Aruba") and job["kind"] == "hand":
             acc.count("collecting_logic_pair_jobs")
             if got.get("error"):
@@ -458,8 +487,8 @@ def run_seq(spec, acc):
         if snap[2] != after[2]:
             acc.violation("C20/compiled-rulebook-modified", "computing a patch changed the compiled (cached, shared) rulebook", w)
             return
-        if any(k.startswith("error") and v in ("AttributeError", "NameError", "ImportError", "TypeError") for k, v in got.items()) and job["kind"] != "corpus":
-            raise RuntimeError("harness problem: %r" % got)
+        if any(k.startswith("error") and v in ("AttributeError", "NameError", "ImportError", "TypeError") and base[jid].get(k) == v for k, v in got.items()) and job["kind"] != "corpus":
+            raise RuntimeError("harness problem (the job fails the same way alone in a fresh process): %r" % got)
         if synth:
             # the synthetic logics' own contract: the rule they receive is fresh for every (rule, key): exactly one mark per command
             bad = [c for c in got.get("cmds", []) + got.get("cmds_direct", [])
